@@ -1417,6 +1417,14 @@ class _Ctx:
             self.assign(target.elts[1], Sub(seq, i), st, node, loopvar=True)
             info.update(kind='enumerate', seq=seq, index=i, start=it.args[1] if len(it.args) > 1 else Num(Fraction(0)))
             return info
+        if isinstance(it, App) and it.fn == 'enumerate' and isinstance(target, ast.Name):
+            # `for pair in enumerate(X)`: the (position, element) pair as one value
+            i = sym(target.id + '_i')
+            st.known[AIs(i, Const(None))] = False
+            seq = it.args[0]
+            st.env[target.id] = TupleT((i, Sub(seq, i)))
+            info.update(kind='enumerate', seq=seq, index=i, start=it.args[1] if len(it.args) > 1 else Num(Fraction(0)), var=st.env[target.id])
+            return info
         if isinstance(it, App) and it.fn == 'range' and isinstance(target, ast.Name):
             i = sym(target.id)
             st.env[target.id] = i
@@ -1635,6 +1643,10 @@ class _Ctx:
         for b in copy.deepcopy(prelude) + [copy.deepcopy(loop)]:
             r = rn.visit(b)
             new_body.extend(r if isinstance(r, list) else [r])
+        try:
+            s._gen_target = g
+        except Exception:
+            pass
         return new_body
 
     @staticmethod
@@ -1714,6 +1726,11 @@ class _Ctx:
             except Exception:
                 pass
         if exp:
+            g_ = getattr(s, '_gen_target', None)
+            if g_ is not None:
+                # the call-graph edge stays: the generator's statements are the generator's, reached from here
+                self.emit(st, 'call', s, targets=[g_], target_kind='pkg', callee_name=g_.qualname, recv=None, args=(), kw=(), via='for',
+                          expr=s.iter, result=None, inlined=True, full_inline=True)
             return self.block(exp, [st])
         it = self.ev(s.iter, st, stmt=s)
         lid = s.lineno
@@ -1728,8 +1745,9 @@ class _Ctx:
                     outs.append(p0)
             return outs
         items = self._literal_items(it, allow_range=False) if (not isinstance(s.iter, ast.Name) or isinstance(it, TupleT)) else None
-        if items is not None and not s.orelse:
-            # a loop over a display written in place runs exactly once per element: unrolled completely
+        if items is not None:
+            # a loop over a display written in place runs exactly once per element: unrolled completely (its `else:` block runs
+            # on the paths that were not left with `break`)
             pre = self._after_calls(st)
             cur = []
             results = []
@@ -1760,7 +1778,10 @@ class _Ctx:
                 self.check_cap(results + cur)
             for c in cur:
                 self.emit(c, 'endloop', s, iterations=len(items), how='exhausted', at_bound=False)
-                results.append(c)
+                if s.orelse:
+                    results.extend(self.block(s.orelse, [c]))
+                else:
+                    results.append(c)
             return results
         results: List[State] = []
         pre = self._after_calls(st)
@@ -2435,6 +2456,11 @@ class _Ctx:
                             return self.ev(v, State())
                         finally:
                             self._alias_busy = False
+                if isinstance(v, ast.Call) and isinstance(v.func, ast.Name) and v.func.id in ('frozenset', 'set', 'tuple') and len(v.args) == 1 \
+                        and not v.keywords and isinstance(v.args[0], (ast.Set, ast.Tuple, ast.List)):
+                    v = ast.Tuple(elts=list(v.args[0].elts), ctx=ast.Load())        # a constant collection: its elements
+                elif isinstance(v, ast.Set):
+                    v = ast.Tuple(elts=list(v.elts), ctx=ast.Load())
                 if isinstance(v, ast.Tuple) and m is self.fn.module and len(list(ast.walk(v))) <= 200 and \
                         all(isinstance(x, (ast.Tuple, ast.Constant, ast.Name, ast.Attribute, ast.Load, ast.UnaryOp, ast.USub)) for x in ast.walk(v)):
                     # a module-level constant table of constants / functions / enum members
@@ -3040,6 +3066,15 @@ class _Ctx:
                 return ast.Subscript(value=F.value, slice=x, ctx=ast.Load())
             if isinstance(F, ast.Attribute) and F.attr == '__contains__':
                 return ast.Compare(left=x, ops=[ast.In()], comparators=[F.value])
+            if isinstance(F, (ast.Call, ast.Name)):
+                try:
+                    g_ = self._operator_getter(F, st)
+                except Exception:
+                    g_ = None
+                if g_:
+                    built = self._apply_getter(g_[0], g_[1], x)
+                    if built is not None:
+                        return built
             if isinstance(F, ast.Call) and not F.keywords:
                 fn_ = F.func.attr if isinstance(F.func, ast.Attribute) else (F.func.id if isinstance(F.func, ast.Name) else None)
                 r_ = self.prog.resolve_expr_static(F.func, self.fn.module) if isinstance(F.func, ast.Attribute) else \
@@ -3091,6 +3126,26 @@ class _Ctx:
         ast.fix_missing_locations(g)
         return g
 
+    @staticmethod
+    def _apply_getter(kind: str, c: ast.Call, obj: ast.expr):
+        """The expression `<getter>(obj)` stands for, for a getter built by operator.attrgetter / itemgetter / methodcaller."""
+        out = None
+        if kind == 'attrgetter' and all(isinstance(a, ast.Constant) and isinstance(a.value, str) and
+                                        all(p_.isidentifier() for p_ in a.value.split('.')) for a in c.args):
+            def chain(path):
+                cur = obj
+                for p_ in path.split('.'):
+                    cur = ast.Attribute(value=cur, attr=p_, ctx=ast.Load())
+                return cur
+            parts = [chain(a.value) for a in c.args]
+            out = parts[0] if len(parts) == 1 else ast.Tuple(elts=parts, ctx=ast.Load())
+        elif kind == 'itemgetter':
+            parts = [ast.Subscript(value=obj, slice=a, ctx=ast.Load()) for a in c.args]
+            out = parts[0] if len(parts) == 1 else ast.Tuple(elts=parts, ctx=ast.Load())
+        elif kind == 'methodcaller' and isinstance(c.args[0], ast.Constant) and isinstance(c.args[0].value, str):
+            out = ast.Call(func=ast.Attribute(value=obj, attr=c.args[0].value, ctx=ast.Load()), args=list(c.args[1:]), keywords=[])
+        return out
+
     def _operator_getter(self, f: ast.expr, st: State):
         """The Call node `operator.attrgetter(...)` / `itemgetter(...)` / `methodcaller(...)` that the callee expression f denotes:
         written in place, or bound once at module level (or to a local that is not rebound) to such a call with constant /
@@ -3100,6 +3155,9 @@ class _Ctx:
                 return None
             r_ = self.prog.resolve_name(c.func.id, self.fn.module) if isinstance(c.func, ast.Name) else \
                 self.prog.resolve_expr_static(c.func, self.fn.module) if isinstance(c.func, ast.Attribute) else None
+            if r_ is None and isinstance(c.func, ast.Name) and isinstance(st.env.get(c.func.id), Sym) and \
+                    st.env[c.func.id].name.startswith('operator.'):
+                r_ = ('ext', st.env[c.func.id].name)        # imported inside the function
             if r_ and r_[0] == 'ext' and r_[1] in ('operator.attrgetter', 'operator.itemgetter', 'operator.methodcaller'):
                 if all(isinstance(a, (ast.Constant, ast.Name, ast.Attribute)) for a in c.args):
                     return r_[1][9:], c
